@@ -62,9 +62,15 @@ def cases(draw):
             None, None]
     hist = []
     for _ in range(draw(st.integers(2, 8))):
-        kind = draw(st.sampled_from(['run', 'run', 'run', 'resume']))
+        kind = draw(st.sampled_from(['run', 'run', 'run', 'run', 'resume',
+                                     'resume', 'toggle']))
         if kind == 'resume':
             hist.append(['resume'])
+            continue
+        if kind == 'toggle':
+            # the public setter, at any boundary (the success predicate is
+            # about the view that is switched on)
+            hist.append(['toggle', draw(st.booleans())])
             continue
         hist.append(['run', dict(
             off=draw(st.sampled_from(offs)),
@@ -127,9 +133,14 @@ def run_case(case):
     lab = sl.Lab(spec, cfg, use_file=True, observers=[on_event], clock=True)
     plog = instrument_prior(lab)
     n_resumes = 0
+    n_toggles = [0]
     try:
         for op in case['history']:
             s = lab.sampler
+            if op[0] == 'toggle':
+                s.discard_exploration = bool(op[1])
+                n_toggles[0] += 1
+                continue
             if op[0] == 'resume':
                 if s.n_like == 0:
                     continue
@@ -251,6 +262,7 @@ def run_case(case):
     res.cls('zero_timeout', st_['zero_timeout'] > 0)
     res.cls('limit_below_count', st_['below'] > 0)
     res.cls('resumed', n_resumes > 0)
+    res.cls('toggled', n_toggles[0] > 0)
     res.cls('success', st_['success'] > 0)
     res.cls('pool', pool)
     res.cls('vectorized', cfg['vectorized'])
